@@ -252,6 +252,22 @@ fn cancel2(n: usize, t: u32, tmax: u32) {
     s.finish();
 }
 
+/// add(a), cancel it, add(b), drain: cancel of a pending event in any bucket position
+/// (bucket boundaries, year multiples, zero bucket) must remove it.
+fn cancel1(n: usize, t: u32, tmax: u32) {
+    let mut s = Sys::new(n, t, false);
+    let a = s.any_time(tmax);
+    s.add(a);
+    kani::cover!(a == t, "REACH cancel of an event exactly on the first bucket boundary");
+    kani::cover!(a == 0, "REACH cancel of a zero-bucket event");
+    s.cancel(0);
+    assert!(s.q.is_empty(), "C01 queue empty after cancelling its only event");
+    let b = s.any_time(tmax);
+    s.add(b);
+    s.drain();
+    s.finish();
+}
+
 /// symbolic script of `ops` operations
 fn script(n: usize, t: u32, tmax: u32, ops: usize, strict: bool) {
     let mut s = Sys::new(n, t, strict);
@@ -264,27 +280,31 @@ fn script(n: usize, t: u32, tmax: u32, ops: usize, strict: bool) {
     s.finish();
 }
 
-// unwind = tmax/t + 3: the fetch scan visits at most tmax/t + 1 windows (+1 loop exit test,
-// +1 slack); list walk <= K+1; model loops K+1.  Unwinding assertions check the bound.
-cq_harness!(c01_order2_n1t1, 6, order2(1, 1, 3, false));
-cq_harness!(c01_order2_n2t2, 6, order2(2, 2, 5, false));
-cq_harness!(c01_order2_n3t1, 7, order2(3, 1, 4, false));
-cq_harness!(c01_order3_n1t2, 6, order3(1, 2, 5, false));
-cq_harness!(c01_order3_n2t1, 7, order3(2, 1, 4, false));
-cq_harness!(c01_order3_n2t2, 6, order3(2, 2, 5, false));
-cq_harness!(c01_cancel2_n1t1, 6, cancel2(1, 1, 3));
-cq_harness!(c01_cancel2_n2t2, 6, cancel2(2, 2, 5));
-cq_harness!(c01_cancel2_n2t1, 7, cancel2(2, 1, 4));
-cq_harness!(c01_script4_n1t2, 6, script(1, 2, 5, 4, false));
-cq_harness!(c01_script4_n2t1, 7, script(2, 1, 4, 4, false));
-cq_harness!(c01_script5_n2t2, 6, script(2, 2, 5, 5, false));
+// harness-wide unwind 5 = K+2 (model loops, list walk, deque iteration).  The two loops of
+// `CQueue::fetch_next` get their own bound per configuration through the registry
+// (`unwindset`, lib/props.py): windows visited + 1.  Unwinding assertions check every bound.
+cq_harness!(c01_order2_n1t1, 5, order2(1, 1, 3, false));
+cq_harness!(c01_order2_n2t2, 5, order2(2, 2, 5, false));
+cq_harness!(c01_order2_n3t1, 5, order2(3, 1, 4, false));
+cq_harness!(c01_order3_n1t2, 5, order3(1, 2, 5, false));
+cq_harness!(c01_order3_n2t1, 5, order3(2, 1, 4, false));
+cq_harness!(c01_order3_n2t2, 5, order3(2, 2, 5, false));
+cq_harness!(c01_cancel2_n1t1, 5, cancel2(1, 1, 3));
+cq_harness!(c01_cancel2_n2t2, 5, cancel2(2, 2, 5));
+cq_harness!(c01_cancel2_n2t1, 5, cancel2(2, 1, 4));
+cq_harness!(c01_cancel1_n2t2, 5, cancel1(2, 2, 5));
+cq_harness!(c01_cancel1_n2t1, 5, cancel1(2, 1, 4));
+cq_harness!(c01_cancel1_n3t1, 5, cancel1(3, 1, 4));
+cq_harness!(c01_script4_n1t2, 5, script(1, 2, 5, 4, false));
+cq_harness!(c01_script4_n2t1, 5, script(2, 1, 4, 4, false));
+cq_harness!(c01_script5_n2t2, 5, script(2, 2, 5, 5, false));
 
-cq_harness!(c03_ties2_n1t1, 6, order2(1, 1, 3, true));
-cq_harness!(c03_ties2_n2t2, 6, order2(2, 2, 5, true));
-cq_harness!(c03_ties3_n1t2, 6, order3(1, 2, 5, true));
-cq_harness!(c03_ties3_n2t1, 7, order3(2, 1, 4, true));
-cq_harness!(c03_ties3_n3t1, 7, order3(3, 1, 4, true));
-cq_harness!(c03_script4_n2t1, 7, script(2, 1, 4, 4, true));
+cq_harness!(c03_ties2_n1t1, 5, order2(1, 1, 3, true));
+cq_harness!(c03_ties2_n2t2, 5, order2(2, 2, 5, true));
+cq_harness!(c03_ties3_n1t2, 5, order3(1, 2, 5, true));
+cq_harness!(c03_ties3_n2t1, 5, order3(2, 1, 4, true));
+cq_harness!(c03_ties3_n3t1, 5, order3(3, 1, 4, true));
+cq_harness!(c03_script4_n2t1, 5, script(2, 1, 4, 4, true));
 
 /// three adds, symbolic times, drain: any subset can tie
 fn ties3(n: usize, t: u32, tmax: u32) {
@@ -299,8 +319,8 @@ fn ties3(n: usize, t: u32, tmax: u32) {
     s.drain();
     s.finish();
 }
-cq_harness!(c03_adds3_n1t1, 6, ties3(1, 1, 3));
-cq_harness!(c03_adds3_n2t2, 6, ties3(2, 2, 5));
+cq_harness!(c03_adds3_n1t1, 5, ties3(1, 1, 3));
+cq_harness!(c03_adds3_n2t2, 5, ties3(2, 2, 5));
 
 // ---------------------------------------------------------------------------
 // CQueue::new vs. overlay constructor (justifies the `CQueue::new` stub)
